@@ -317,20 +317,26 @@ type AffClient struct {
 	Init func(a *Aff, st *affSpace) *affSpace
 	// FieldWrittenBy reports whether a call may (synchronously) write the field.
 	FieldWrittenBy func(call *ast.CallExpr, f *types.Var) bool
+	// Inline returns the function to analyse in place of the call (a helper that takes part in the
+	// bookkeeping), or nil. Inlined calls are analysed over the caller's quantities plus the callee's
+	// locals, with parameters bound to the argument forms; depth is bounded.
+	Inline func(call *ast.CallExpr) *FuncInfo
 }
 
 type Aff struct {
-	c     *Ctx
-	fn    *FuncInfo
-	info  *types.Info
-	fg    *FlowGraph
-	cl    *AffClient
-	vars  []affVar
-	idx   map[types.Object]int // locals: int var or slice (len)
-	fidx  map[*types.Var]int
-	gidx  map[string]int
-	in    map[int32]*affSpace
-	Notes []string
+	parent *Aff
+	depth  int
+	c      *Ctx
+	fn     *FuncInfo
+	info   *types.Info
+	fg     *FlowGraph
+	cl     *AffClient
+	vars   []affVar
+	idx    map[types.Object]int // locals: int var or slice (len)
+	fidx   map[*types.Var]int
+	gidx   map[string]int
+	in     map[int32]*affSpace
+	Notes  []string
 }
 
 func (a *Aff) N() int { return len(a.vars) }
@@ -619,10 +625,26 @@ func (a *Aff) transfer(n ast.Node, st *affSpace) *affSpace {
 	if a.cl.Before != nil {
 		st = a.cl.Before(a, n, st)
 	}
+	inlined := map[*ast.CallExpr]bool{}
+	if a.cl.Inline != nil && a.depth < 2 {
+		var calls []*ast.CallExpr
+		inspectNoLit(n, func(m ast.Node) bool {
+			if call, ok := m.(*ast.CallExpr); ok {
+				calls = append(calls, call)
+			}
+			return true
+		})
+		for _, call := range calls {
+			if fi := a.cl.Inline(call); fi != nil && fi.Obj != a.fn.Obj && !a.inStack(fi) {
+				st = a.inlineCall(call, fi, st)
+				inlined[call] = true
+			}
+		}
+	}
 	forms := map[int]*affForm{}
 	havocCalls := func(root ast.Node) {
 		inspectNoLit(root, func(m ast.Node) bool {
-			if call, ok := m.(*ast.CallExpr); ok && a.cl.FieldWrittenBy != nil {
+			if call, ok := m.(*ast.CallExpr); ok && a.cl.FieldWrittenBy != nil && !inlined[call] {
 				for f, i := range a.fidx {
 					if a.cl.FieldWrittenBy(call, f) {
 						forms[i] = nil
@@ -893,4 +915,207 @@ func (a *Aff) Dump(st *affSpace) string {
 		s += "\n  v=" + a.Describe(&affForm{coef: v, c: new(big.Rat)})
 	}
 	return s
+}
+
+func (a *Aff) inStack(fi *FuncInfo) bool {
+	for x := a; x != nil; x = x.parent {
+		if x.fn.Obj == fi.Obj {
+			return true
+		}
+	}
+	return false
+}
+
+// inlineCall analyses callee fi in place of the call: the space is extended by the callee's tracked
+// locals, parameters are bound to the argument forms, the callee's fixpoint is computed from that entry
+// state, and the join of its exit states is projected back onto the caller's quantities.
+func (a *Aff) inlineCall(call *ast.CallExpr, fi *FuncInfo, st *affSpace) *affSpace {
+	if st.bottom {
+		return st
+	}
+	ch := &Aff{parent: a, depth: a.depth + 1, c: a.c, fn: fi, info: fi.Info(), cl: a.cl,
+		idx: map[types.Object]int{}, fidx: a.fidx, gidx: a.gidx, in: map[int32]*affSpace{}}
+	ch.fg = newFlowGraph(ch.info, fi.Decl.Body)
+	ch.vars = append([]affVar(nil), a.vars...)
+	n0 := len(a.vars)
+	// callee locals (same selection as newAff)
+	excluded := map[types.Object]bool{}
+	ast.Inspect(fi.Decl.Body, func(m ast.Node) bool {
+		switch x := m.(type) {
+		case *ast.FuncLit:
+			ast.Inspect(x.Body, func(k ast.Node) bool {
+				if as, ok := k.(*ast.AssignStmt); ok {
+					for _, l := range as.Lhs {
+						if id, ok := ast.Unparen(l).(*ast.Ident); ok {
+							excluded[ch.info.ObjectOf(id)] = true
+						}
+					}
+				}
+				return true
+			})
+			return false
+		case *ast.UnaryExpr:
+			if x.Op == token.AND {
+				if id, ok := ast.Unparen(x.X).(*ast.Ident); ok {
+					excluded[ch.info.ObjectOf(id)] = true
+				}
+			}
+		}
+		return true
+	})
+	addLocal := func(obj *types.Var) {
+		if obj == nil || excluded[obj] || obj.IsField() {
+			return
+		}
+		if _, seen := ch.idx[obj]; seen {
+			return
+		}
+		switch {
+		case isIntType(obj.Type()):
+			ch.vars = append(ch.vars, affVar{affInt, obj, obj.Name()})
+			ch.idx[obj] = len(ch.vars) - 1
+		case isSliceType(obj.Type()):
+			ch.vars = append(ch.vars, affVar{affLen, obj, "len(" + obj.Name() + ")"})
+			ch.idx[obj] = len(ch.vars) - 1
+		}
+	}
+	var params []*types.Var
+	if fi.Decl.Type.Params != nil {
+		for _, f := range fi.Decl.Type.Params.List {
+			for _, nm := range f.Names {
+				if v, ok := ch.info.ObjectOf(nm).(*types.Var); ok {
+					params = append(params, v)
+					addLocal(v)
+				} else {
+					params = append(params, nil)
+				}
+			}
+		}
+	}
+	inspectNoLit(fi.Decl.Body, func(m ast.Node) bool {
+		if id, ok := m.(*ast.Ident); ok {
+			if v, ok := ch.info.Defs[id].(*types.Var); ok {
+				addLocal(v)
+			}
+		}
+		return true
+	})
+	n1 := len(ch.vars)
+	// extend the state: new dimensions are unconstrained
+	ext := &affSpace{n: n1, p: newVec(n1)}
+	copy(ext.p, st.p.clone())
+	for i := n0; i < n1; i++ {
+		ext.p[i] = new(big.Rat)
+	}
+	for _, v := range st.vs {
+		w := newVec(n1)
+		for i := range v {
+			w[i].Set(v[i])
+		}
+		ext.vs = append(ext.vs, w)
+	}
+	for i := n0; i < n1; i++ {
+		e := newVec(n1)
+		e[i].SetInt64(1)
+		ext.vs = append(ext.vs, e)
+	}
+	// bind parameters to the argument forms (evaluated in the caller, padded to the extended space)
+	bind := map[int]*affForm{}
+	for k, pv := range params {
+		if pv == nil || k >= len(call.Args) {
+			continue
+		}
+		i, ok := ch.idx[pv]
+		if !ok {
+			continue
+		}
+		var f *affForm
+		var okf bool
+		if ch.vars[i].kind == affLen {
+			f, okf = a.LenForm(call.Args[k])
+		} else {
+			f, okf = a.Form(call.Args[k])
+		}
+		if okf {
+			g := newForm(n1)
+			for j := range f.coef {
+				g.coef[j].Set(f.coef[j])
+			}
+			g.c.Set(f.c)
+			bind[i] = g
+		}
+	}
+	if len(bind) > 0 {
+		ext = ext.assignMany(bind)
+	}
+	ext.normalise()
+	// fixpoint in the callee
+	exit := affBottom(n1)
+	ch.runFrom(ext, func(s *affSpace) { exit = exit.join(s) })
+	if exit.bottom {
+		return affBottom(st.n)
+	}
+	// project back
+	out := &affSpace{n: n0, p: newVec(n0)}
+	for i := 0; i < n0; i++ {
+		out.p[i].Set(exit.p[i])
+	}
+	for _, v := range exit.vs {
+		w := newVec(n0)
+		for i := 0; i < n0; i++ {
+			w[i].Set(v[i])
+		}
+		if !w.isZero() {
+			out.vs = append(out.vs, w)
+		}
+	}
+	out.normalise()
+	return out
+}
+
+// runFrom computes the fixpoint from the given entry state and reports the state at every exit
+// (return statements and falling off the end).
+func (a *Aff) runFrom(entry *affSpace, atExit func(*affSpace)) {
+	n := entry.n
+	blocks := a.fg.G.Blocks
+	for _, b := range blocks {
+		a.in[b.Index] = affBottom(n)
+	}
+	a.in[0] = entry
+	work := []*cfg.Block{blocks[0]}
+	inWork := map[int32]bool{0: true}
+	for steps := 0; len(work) > 0 && steps < 20000; steps++ {
+		b := work[0]
+		work = work[1:]
+		inWork[b.Index] = false
+		st := a.in[b.Index]
+		for _, nd := range b.Nodes {
+			st = a.transfer(nd, st)
+		}
+		for si, s := range b.Succs {
+			out := st
+			if len(b.Succs) == 2 {
+				out = a.edgeAssume(b, si, st)
+			}
+			old := a.in[s.Index]
+			j := old.join(out)
+			if j.rank() != old.rank() {
+				a.in[s.Index] = j
+				if !inWork[s.Index] {
+					inWork[s.Index] = true
+					work = append(work, s)
+				}
+			}
+		}
+	}
+	for _, b := range blocks {
+		if !a.fg.Reachable(b) || len(b.Succs) != 0 {
+			continue
+		}
+		st := a.in[b.Index]
+		for _, nd := range b.Nodes {
+			st = a.transfer(nd, st)
+		}
+		atExit(st)
+	}
 }
